@@ -55,14 +55,14 @@ func init() {
 	register(&Profile{
 		Name:     "C08",
 		Property: "C08",
-		Gen:      genC08,
+		Gen:      func(g *Gen) *Plan { return swarm(g, genC08(g), 0.2, 0) },
 		Oracles: []func(o *Outcome) []Violation{oracleC08, livenessOracle("C08"), servedOracleStrict("C08"), respOracle("C08"),
 			// hit-for-pass markers are persisted under the same rules: never in force beyond their original period
 			relabelOnly("C08", oracleC07, "marker-outlives-period")},
 		NonTrivial: func(o *Outcome) bool {
 			return o.Hist.Probes["served-from-store-after-restart"]+o.Hist.Probes["path:hit-after-reload"] > 0
 		},
-		Rule:         "seeded histories on a simulated disk (durable map + acknowledged-but-unsynced writes): cold fetches, hits, hit-for-pass, purges and concurrent writes of 3-8 keys with an LRU smaller than the working set (evict + reload), interrupted by kill (a controller action taken at an arbitrary scheduler step: every task is abandoned where it stands, each unsynced write is independently kept, lost or - if enabled - torn at a random offset) or graceful stop, followed by a restart on the same disk; store TTL enforcement exact / late / never. Oracle: whatever is served without upstream contact after a restart or reload is an unaltered reply of the origin for that key, inside its original lifetime, with Age continuing from the original fetch; every request after the restart completes and is served normally. badger itself is never run. non-trivial = a response was served from the store after a restart or reload; distinct = distinct history hash",
+		Rule:         "seeded histories on a simulated disk (durable map + acknowledged-but-unsynced writes): cold fetches, hits, hit-for-pass, purges and concurrent writes of 3-8 keys with an LRU smaller than the working set (evict + reload), interrupted by kill (a controller action taken at an arbitrary scheduler step: every task is abandoned where it stands, each unsynced write is independently kept, lost or - if enabled - torn at a random offset) or graceful stop, followed by a restart on the same disk; store TTL enforcement exact / late / never. Oracle: whatever is served without upstream contact after a restart or reload is an unaltered reply of the origin for that key, inside its original lifetime, with Age continuing from the original fetch; every request after the restart completes and is served normally. badger itself is never run. in a fifth of the plans a tenth of the clients disconnect at a scheduler-chosen step (fault client-disconnect). non-trivial = a response was served from the store after a restart or reload; distinct = distinct history hash",
 		ExpectProbes: []string{"served-from-store-after-restart", "path:hit-after-reload", "crash-with-task-in-store-call", "crash-with-fetch-in-flight", "restart-then-expired-record-refetched", "hit-for-pass-after-restart"},
 	})
 }
